@@ -15,9 +15,9 @@
 EXTENDS Naturals, Sequences
 
 CoreIds == {"w", "two", "empty", "bsn", "nl", "numstr", "int", "float", "posexp", "t", "null", "ref", "uni", "flow", "chain", "syn", "tens", "qop", "tens3", "slashes", "nlsp", "ann", "ctor1", "holo", "l0", "l2", "l3", "lnest", "lmatrix", "lmap", "lfalsy", "lq", "lslash", "lexpr", "z1", "zpy", "ztrail", "zseal", "zempty"}
-FullIds == {"three", "quote", "bslash", "tab", "truestr", "nullstr", "vsstr", "truedot", "neg", "zero", "one", "fzero", "fone", "big", "exp", "negexp", "bigexp", "intexp", "f1e16", "i1e16", "f17", "finf", "fninf", "f", "ver", "verpre", "var", "vartyped", "ref2b", "path", "hyph", "colon", "pct", "emoji", "alt", "con", "cat", "at", "mixed", "syn3", "slash2", "relpath", "abspath", "docpath", "sjl", "sje", "sjo", "nllead", "ctor2", "ctor0", "catpath", "ctorop", "ctorops", "stageop", "holoenum", "l1", "lnullmap", "lemptymap", "ltq", "lann", "lpattern", "z4", "ztab", "zblank3", "linf", "l01", "zblank"}
+FullIds == {"three", "quote", "bslash", "tab", "truestr", "nullstr", "vsstr", "truedot", "neg", "zero", "one", "fzero", "fone", "big", "exp", "negexp", "bigexp", "intexp", "f1e16", "i1e16", "f17", "finf", "fninf", "f", "ver", "verpre", "var", "vartyped", "ref2b", "path", "hyph", "colon", "pct", "emoji", "alt", "con", "cat", "at", "mixed", "syn3", "slash2", "relpath", "abspath", "docpath", "sjl", "sje", "sjo", "nllead", "ctor2", "ctor0", "catpath", "ctorop", "ctorops", "stageop", "holoenum", "l1", "lnullmap", "lemptymap", "ltq", "lann", "lpattern", "z4", "zoct", "zmd", "ztab", "zblank3", "linf", "l01", "zblank"}
 ValIds == CoreIds \cup FullIds
-ZoneIds == {"z1", "zpy", "z4", "ztrail", "zseal", "zempty", "ztab", "zblank3", "zblank"}
+ZoneIds == {"z1", "zpy", "z4", "ztrail", "zseal", "zoct", "zmd", "zempty", "ztab", "zblank3", "zblank"}
 ListIds == {"holo", "holoenum", "l0", "l1", "l2", "l3", "lnest", "lmatrix", "lmap", "lfalsy", "lnullmap", "lemptymap", "lq", "ltq", "lslash", "lexpr", "lann", "lpattern", "linf", "l01"}
 
 Abs(v) ==
@@ -121,6 +121,8 @@ Abs(v) ==
     [] v = "z4" -> [t |-> "zone", s |-> "4:", xs |-> <<[t |-> "ln", s |-> "```", xs |-> <<>>], [t |-> "ln", s |-> "===END===", xs |-> <<>>]>>]
     [] v = "ztrail" -> [t |-> "zone", s |-> "3:", xs |-> <<[t |-> "ln", s |-> "trail  ", xs |-> <<>>], [t |-> "ln", s |-> "tab{U0009}", xs |-> <<>>]>>]
     [] v = "zseal" -> [t |-> "zone", s |-> "3:", xs |-> <<[t |-> "ln", s |-> "{U00A7}SEAL::SEAL", xs |-> <<>>], [t |-> "ln", s |-> "  SCOPE::LINES[1,2]", xs |-> <<>>], [t |-> "ln", s |-> "  HASH::\"0000\"", xs |-> <<>>]>>]
+    [] v = "zoct" -> [t |-> "zone", s |-> "3:octave", xs |-> <<[t |-> "ln", s |-> "===INNER===", xs |-> <<>>], [t |-> "ln", s |-> "K::v", xs |-> <<>>], [t |-> "ln", s |-> "===END===", xs |-> <<>>]>>]
+    [] v = "zmd" -> [t |-> "zone", s |-> "3:md", xs |-> <<[t |-> "ln", s |-> "===INNER===", xs |-> <<>>], [t |-> "ln", s |-> "K::v", xs |-> <<>>]>>]
     [] v = "zempty" -> [t |-> "zone", s |-> "3:", xs |-> <<>>]
     [] v = "ztab" -> [t |-> "zone", s |-> "3:txt", xs |-> <<[t |-> "ln", s |-> "{U0009}x", xs |-> <<>>], [t |-> "ln", s |-> "cafe{U0301}", xs |-> <<>>], [t |-> "ln", s |-> "q\"\\n", xs |-> <<>>]>>]
     [] v = "zblank3" -> [t |-> "zone", s |-> "3:", xs |-> <<[t |-> "ln", s |-> "a  ", xs |-> <<>>], [t |-> "ln", s |-> "", xs |-> <<>>], [t |-> "ln", s |-> "", xs |-> <<>>], [t |-> "ln", s |-> "", xs |-> <<>>], [t |-> "ln", s |-> "{U00A7}1::X", xs |-> <<>>], [t |-> "ln", s |-> "{U00A7}2::Y", xs |-> <<>>]>>]
@@ -313,6 +315,8 @@ Spell(v) ==
     [] v = "z4" -> <<<<[k |-> "first", c |-> <<>>], [k |-> "rel", c |-> <<"````">>], [k |-> "raw", c |-> <<"```">>], [k |-> "raw", c |-> <<"===END===">>], [k |-> "rel", c |-> <<"````">>]>>>>
     [] v = "ztrail" -> <<<<[k |-> "first", c |-> <<>>], [k |-> "rel", c |-> <<"```">>], [k |-> "raw", c |-> <<"trail  ">>], [k |-> "raw", c |-> <<"tab", "U0009">>], [k |-> "rel", c |-> <<"```">>]>>>>
     [] v = "zseal" -> <<<<[k |-> "first", c |-> <<>>], [k |-> "rel", c |-> <<"```">>], [k |-> "raw", c |-> <<"U00A7", "SEAL::SEAL">>], [k |-> "raw", c |-> <<"  SCOPE::LINES[1,2]">>], [k |-> "raw", c |-> <<"  HASH::\"0000\"">>], [k |-> "rel", c |-> <<"```">>]>>>>
+    [] v = "zoct" -> <<<<[k |-> "first", c |-> <<>>], [k |-> "rel", c |-> <<"```", "octave">>], [k |-> "raw", c |-> <<"===INNER===">>], [k |-> "raw", c |-> <<"K::v">>], [k |-> "raw", c |-> <<"===END===">>], [k |-> "rel", c |-> <<"```">>]>>>>
+    [] v = "zmd" -> <<<<[k |-> "first", c |-> <<>>], [k |-> "rel", c |-> <<"```", "md">>], [k |-> "raw", c |-> <<"===INNER===">>], [k |-> "raw", c |-> <<"K::v">>], [k |-> "rel", c |-> <<"```">>]>>>>
     [] v = "zempty" -> <<<<[k |-> "first", c |-> <<>>], [k |-> "rel", c |-> <<"```">>], [k |-> "rel", c |-> <<"```">>]>>>>
     [] v = "ztab" -> <<<<[k |-> "first", c |-> <<>>], [k |-> "rel", c |-> <<"```", "txt">>], [k |-> "raw", c |-> <<"U0009", "x">>], [k |-> "raw", c |-> <<"cafe", "U0301">>], [k |-> "raw", c |-> <<"q\"\\n">>], [k |-> "rel", c |-> <<"```">>]>>>>
     [] v = "zblank3" -> <<<<[k |-> "first", c |-> <<>>], [k |-> "rel", c |-> <<"```">>], [k |-> "raw", c |-> <<"a  ">>], [k |-> "raw", c |-> <<>>], [k |-> "raw", c |-> <<>>], [k |-> "raw", c |-> <<>>], [k |-> "raw", c |-> <<"U00A7", "1::X">>], [k |-> "raw", c |-> <<"U00A7", "2::Y">>], [k |-> "rel", c |-> <<"```">>]>>>>
